@@ -1,10 +1,10 @@
 SPECIFICATION Spec
 CONSTANTS
-  NNames = 2
+  NNames = 3
   NAlias = 1
   NItems = 2
   Grans = {"Item", "Module", "Crate", "One"}
   Viss = {"priv"}
-  MaxList = 2
+  MaxList = 1
 INVARIANTS Scenario
 CHECK_DEADLOCK FALSE
